@@ -2,3 +2,13 @@
 from pyvc.contract import fields
 
 fields("Agent", position="list[val]", cost="float", fitness="float")
+fields("EarlyStopping", patience="opt[int]", min_delta="opt[float]")
+fields("BaseOptimizationConfig", population_size="int", fitness_error="opt[float]", max_cycles="int",
+       early_stopping="opt[EarlyStopping]")
+fields("Task", minmax="TaskType", objective_weights="opt[list[float]]", seed="opt[float]", variables="list[Variable]",
+       space_dimension="int")
+fields("OptimizationAbstract", _config="opt[BaseOptimizationConfig]", _task="opt[Task]", _population="list[Agent]",
+       _best_agent="opt[Agent]", _worst_agent="opt[Agent]", _current_cycle="int", _errors="list[float]",
+       _error_diffs="list[float]", _mode="ModeSolver", _workers="int", _debug="bool")
+fields("Population", agents="list[Agent]")
+fields("OptimizationResult", evolution="list[Population]", rates="list[float]", best_solution="opt[Agent]")
